@@ -7,7 +7,7 @@
              CliResolve     src/cli/commands.rs        collect_modules (inline resolution)
              SharedResolve  src/frontend/module.rs     resolve_import_path (LSP, ModuleCollector)
              LibResolve     src/frontend/resolver.rs   ModuleResolver::resolve_import/find_module_file
-           the parametric resolver `Gen` they are instances of (checked: GenIsCli/Shared/Lib)
+           the parametric resolver `Gen` they are instances of (MC_Modules: GenIsCli/Lib/Lsp/Col)
            and the cause analysis that names a disagreement by the algorithmic differences
            (segment / candidates / base) that explain it: the known-finding signature.
    Part 3  visibility: what the property demands (only `pub` is usable) and the transcription
